@@ -97,6 +97,23 @@ def run_ntgraph(ctx):
     for k in range(200 if ctx.quick else 3000):
         shape = gen.random_shape(ctx.rng, recursive=ctx.rng.random() < 0.6, n_nts=(1, 5), p_ruleless=0.25)
         hrg, info = gen.build_hrg(shape)
+        if ctx.rng.random() < 0.4 and hrg.all_rules():
+            # history: right-hand sides that once held an edge labelled with some nonterminal (since removed), or merely have its
+            # label registered: the dependency graph is about the edges that are there now
+            from fggs import Node, Edge
+            for r in hrg.all_rules():
+                if ctx.rng.random() < 0.5:
+                    y = ctx.rng.choice(info['XL'])
+                    try:
+                        if ctx.rng.random() < 0.5:
+                            e = Edge(y, [Node(nl) for nl in y.type])
+                            r.rhs.add_edge(e)
+                            r.rhs.remove_edge(e)
+                        else:
+                            r.rhs.add_edge_label(y)
+                        ctx.count('ntgraph.stale-label')
+                    except Exception:
+                        pass
         g = nonterminal_graph(hrg)
         XL = info['XL']
         idx = {x: i for i, x in enumerate(XL)}
